@@ -164,7 +164,7 @@ def run(tier):
     bres = build(THEOREMS)
     model = Model()
     R = rng('C04', 'sets')
-    n_iter = (60 if tier == "quick" else 600)
+    n_iter = (120 if tier == "quick" else 800)
     reqs, cases = [], []
     for it in range(n_iter):
         for set_cls in SET_CLASSES:
